@@ -50,7 +50,7 @@ def eq_nan(A, B):
 
 def is_close_exact(a, b):
     """np.isclose(a, b) with default tolerances, in exact rationals"""
-    return abs(a - b) <= Fr(1, 10 ** 8) + Fr(1, 10 ** 5) * abs(b)
+    return abs(a - b) <= Fr(1e-8) + Fr(1e-5) * abs(b)        # the doubles NumPy uses, right-hand side exact (as the model)
 
 
 # ------------------------------------------------------------------ copy-flag semantics (every function)
@@ -92,15 +92,32 @@ def copy_semantics(fname, f, A0, args, viol, det, t=5):
 
 # ------------------------------------------------------------------ threshold_proportional
 
-def tp_oracle(A0, p):
-    """independent preprocessing and expected counts: returns dict(sym, ud, W1 (float working matrix), x (Fraction of the double
-    product), x_exact, en, nnz)"""
+_TP_MODE = {}
+
+
+def tp_mode(bct):
+    """which symmetry test the code under test applies: 'allclose' (tolerance) or 'exact' (np.array_equal, the proposed repair).
+    Only selects which of the two modelled semantics the Lean model line is compared with; the property predicates never use it."""
+    if 'm' not in _TP_MODE:
+        st, R = call(bct.threshold_proportional, np.array([[0, 3e-9], [5e-9, 0]]), 1.0, t=5, retry=10)
+        _TP_MODE['m'] = 'exact' if (st == 'ok' and R[1, 0] == 5e-9 and R[0, 1] == 3e-9) else 'allclose'
+    return _TP_MODE['m']
+
+
+def tp_oracle(A0, p, mode='allclose'):
+    """independent preprocessing.  Two different things are computed and kept apart:
+    * what the PROPERTY says about the exact input (`true_*`): the matrix is undirected only if it is exactly symmetric;
+    * the branch the code takes (`sym`: np.array_equal; np.allclose if the probe finds the old tolerance test) - used only to build
+      the Lean model line, which is compared where that verdict equals the model's exact-symmetry test."""
     n = len(A0)
     W0 = A0.copy()
     for i in range(n):
         W0[i, i] = 0.0
     F = [[Fr(W0[i, j]) for j in range(n)] for i in range(n)]
-    sym = all(is_close_exact(F[i][j], F[j][i]) for i in range(n) for j in range(n))
+    exact_sym = all(F[i][j] == F[j][i] for i in range(n) for j in range(n))
+    close_rat = all(is_close_exact(F[i][j], F[j][i]) for i in range(n) for j in range(n))
+    close_np = bool(np.allclose(W0, W0.T))
+    sym = exact_sym if mode == 'exact' else close_np
     W1 = W0.copy()
     if sym:
         for i in range(n):
@@ -112,7 +129,13 @@ def tp_oracle(A0, p):
     x_exact = Fr(n * n - n) * Fr(float(p)) / ud
     en = round_half_away(x)
     nnz = sum(1 for i in range(n) for j in range(n) if W1[i, j] != 0)
-    return {'sym': sym, 'ud': ud, 'W1': W1, 'x': x, 'x_exact': x_exact, 'en': en, 'nnz': nnz}
+    tud = 2 if exact_sym else 1
+    ten = round_half_away(Fr((n * n - n) * float(p) / tud))
+    tcells = [(i, j) for i in range(n) for j in range(n) if W0[i, j] != 0 and (i < j or not exact_sym)]
+    return {'sym': sym, 'ud': ud, 'W1': W1, 'x': x, 'x_exact': x_exact, 'en': en, 'nnz': nnz, 'W0': W0, 'exact_sym': exact_sym,
+            # the model tests exact symmetry (np.array_equal), as the code does since 98d0750
+            'model_agrees_on_branch': exact_sym == sym, 'true_ud': tud, 'true_en': ten, 'true_cells': tcells,
+            'near_symmetric_not_exact': close_np and not exact_sym}
 
 
 def run_tp(case):
@@ -130,9 +153,11 @@ def run_tp(case):
             d['timeouts'] = d.get('timeouts', 0) + 1; continue
         if st == 'exc':
             out['viol'].append(('threshold_proportional', 'raises', dict(det, exception=R), {})); continue
-        o = tp_oracle(A0, p)
+        o = tp_oracle(A0, p, tp_mode(bct))
         half = (o['x'] * 2).denominator == 1 and o['x'].denominator == 2
-        cond = {'branch': 'sym' if o['sym'] else 'asym', 'half': half}
+        cond = {'branch': 'sym' if o['sym'] else 'asym', 'half': half, 'near_symmetric_not_exact': o['near_symmetric_not_exact']}
+        if o['near_symmetric_not_exact']:
+            d['near_symmetric_not_exact'] = d.get('near_symmetric_not_exact', 0) + 1
         det = dict(det, result=frs_str(fmat(R)), ud=o['ud'], x=rat_str(o['x']), en=o['en'], nnz_found=o['nnz'])
         d['branch:' + cond['branch']] = d.get('branch:' + cond['branch'], 0) + 1
         if half:
@@ -141,25 +166,28 @@ def run_tp(case):
             d['double_product_inexact'] = d.get('double_product_inexact', 0) + 1
         if not isinstance(R, np.ndarray) or R.shape != (n, n):
             out['viol'].append(('threshold_proportional', 'shape', det, cond)); continue
-        W1 = o['W1']
+        # ---- the property, judged against the EXACT input (diagonal cleared), never against the code's own symmetry verdict:
+        # an input that is not exactly symmetric is a directed matrix
+        W1 = o['W1']; W0 = o['W0']
         nz = int(np.count_nonzero(R))
-        want = o['ud'] * min(o['en'], o['nnz'])
+        want = o['true_ud'] * min(o['true_en'], len(o['true_cells']))
         if nz != want:
             out['viol'].append(('threshold_proportional', 'kept-count', dict(det, nonzero_cells=nz, expected=want), cond))
         if any(R[i, i] != 0 for i in range(n)):
             out['viol'].append(('threshold_proportional', 'diagonal', det, cond))
-        if o['sym'] and not all(R[i, j] == R[j, i] for i in range(n) for j in range(n)):
+        if o['exact_sym'] and not all(R[i, j] == R[j, i] for i in range(n) for j in range(n)):
             out['viol'].append(('threshold_proportional', 'symmetry', det, cond))
-        # entries: 0 or the input cell (in the symmetric branch: the upper-triangle representative)
-        bad = [(i, j) for i in range(n) for j in range(n)
-               if R[i, j] != 0 and R[i, j] != (W1[min(i, j), max(i, j)] if o['sym'] else W1[i, j])]
+        # entries: every output cell is 0 or the input cell
+        bad = [(i, j) for i in range(n) for j in range(n) if R[i, j] != 0 and R[i, j] != W0[i, j]]
         if bad:
             out['viol'].append(('threshold_proportional', 'entries', dict(det, cells=bad[:4]), cond))
-        work = [(i, j) for i in range(n) for j in range(n) if W1[i, j] != 0]
-        kept = [W1[c] for c in work if R[c] != 0]
-        dropped = [W1[c] for c in work if R[c] == 0]
+        # strongest: every kept connection is at least as strong as every dropped one (connections = nonzero off-diagonal input cells)
+        conn = [(i, j) for i in range(n) for j in range(n) if W0[i, j] != 0]
+        kept = [W0[c] for c in conn if R[c] != 0]
+        dropped = [W0[c] for c in conn if R[c] == 0]
         if kept and dropped and min(kept) < max(dropped):
             out['viol'].append(('threshold_proportional', 'strongest', dict(det, weakest_kept=min(kept), strongest_dropped=max(dropped)), cond))
+        work = [(i, j) for i in range(n) for j in range(n) if W1[i, j] != 0]
         tie = bool(kept and dropped and min(kept) == max(dropped))
         if tie:
             d['tie_at_cut'] = d.get('tie_at_cut', 0) + 1
@@ -171,7 +199,9 @@ def run_tp(case):
                 out['sample'] = {'function': 'threshold_proportional', 'n': n, 'W': ','.join(case['W']), 'p': ps, 'ud': o['ud'], 'en': o['en'],
                                  'nnz_found': o['nnz'], 'result': frs_str(fmat(R))}
         # correspondence line (the model is exact: only where the double product equals the exact product)
-        if case['model'] and o['x'] == o['x_exact']:
+        if not o['model_agrees_on_branch']:
+            d['model_skipped_symmetry_verdict_differs'] = d.get('model_skipped_symmetry_verdict_differs', 0) + 1
+        if case['model'] and o['x'] == o['x_exact'] and o['model_agrees_on_branch']:
             vals = np.array([W1[c] for c in work])       # row-major, as np.where
             order = np.argsort(vals)[::-1] if len(vals) else []
             line = 'tprop n=%d W=%s p=%s order=%s' % (n, ','.join(case['W']), rat_str(p), ','.join(str(int(k)) for k in order) if len(vals) else '-')
@@ -604,6 +634,22 @@ def gen_tp_mats(rs, n, quick):
             for j in range(i):
                 W[i * n + j] = W[i * n + j] * (1 + eps)
         mats.append((name, W))
+    # genuinely asymmetric matrices that np.allclose(W, W.T) nevertheless accepts (audit 3): tiny weights (every |a-b| < atol) and
+    # large integers whose asymmetry stays within rtol.  The property treats them as directed; the predicates judge the exact input.
+    for rep_ in range(1 if quick else 3):
+        W = build(alpha(list(range(1, 10)), .8), False)
+        mats.append(('asym-times-2^-40', [x / 2 ** 40 for x in W]))
+        W = build(alpha([100000, 200000, 300000, 400000], .85), True)
+        for i in range(n):
+            for j in range(n):
+                if i != j and W[i * n + j] != 0:
+                    W[i * n + j] += int(rs.randint(0, 2))          # independent +0/+1 per cell: asymmetric, |a-b| <= 1 <= rtol*|b|
+        mats.append(('asym-large-ints-within-rtol', W))
+    if n == 3:
+        mats.append(('audit3-drops-existing-creates-new', [Fr(x) for x in (0, 5e-9, 0, 0, 0, 0, 3e-9, 0, 0)]))
+    if n == 2:
+        mats.append(('audit3-keeps-weaker', [Fr(x) for x in (0, 3e-9, 5e-9, 0)]))
+        mats.append(('audit3-closecell-boundary', [Fr(x) for x in (0, 0, 1e-8, 0)]))
     # one asymmetric entry in an otherwise symmetric matrix
     W = build(alpha([1, 2, 3], .9), True)
     i, j = 0, n - 1
@@ -743,7 +789,7 @@ def main():
                        'the documented count round(p * count) is evaluated as the IEEE double expression (n*n-n)*p/ud and rounded half away from zero exactly; '
                        'the Lean model is compared only where that double product is exact',
                        'NumPy argsort tie order is an oracle input of the model, recomputed by the harness on its own preprocessed copy',
-                       'np.allclose(W, W.T) is modelled with the exact rationals 1/10^8 and 1/10^5; inputs stay far from that boundary']
+                       'the code\'s np.array_equal(W, W.T) branch test is modelled as exact symmetry; the property predicates are judged against the exact input: a matrix that is not exactly symmetric is directed (families within the old np.allclose tolerance are generated on purpose)']
     ck.trusted = TRUSTED_DEFAULT + ['IEEE-754: w/m and 1/w are correctly rounded, so float(exact model value) must equal the NumPy result bit for bit']
     # T-gen: re-extract the core update steps from /repo's current source (translate/cores.py); the generated
     # obligations say the extracted IR is the reference program whose interpreter is proved equal to the model
